@@ -34,21 +34,23 @@ import (
 //     SHUTDOWN for ever.
 
 const (
-	c30EvExitIdle = iota // cc.Connect()
-	c30EvConnect         // the LB policy calls sc[i].Connect()
-	c30EvShutdown        // the LB policy calls sc[i].Shutdown()
-	c30EvDialOK          // the pending dial of subchannel i succeeds, the server completes the HTTP/2 preface
-	c30EvDialFail        // the pending dial of subchannel i fails
-	c30EvDialHSFail      // the pending dial succeeds but the server closes the connection without sending its HTTP/2 preface
-	c30EvGoAway          // the server of subchannel i sends GOAWAY(NO_ERROR)
-	c30EvSrvClose        // the server of subchannel i closes the connection
-	c30EvAdv             // virtual time advances by c30AdvStep (less than the backoff)
-	c30EvAdvIdle         // virtual time advances by the idle timeout
-	c30EvClose           // cc.Close()
+	c30EvExitIdle   = iota // cc.Connect()
+	c30EvConnect           // the LB policy calls sc[i].Connect()
+	c30EvShutdown          // the LB policy calls sc[i].Shutdown()
+	c30EvConnFail          // the LB policy calls sc[i].Connect() on an IDLE subchannel and the dial fails at once (two updates in one step)
+	c30EvConnOK            // the LB policy calls sc[i].Connect() on an IDLE subchannel and the connection is established at once
+	c30EvDialOK            // the pending dial of subchannel i succeeds, the server completes the HTTP/2 preface
+	c30EvDialFail          // the pending dial of subchannel i fails
+	c30EvDialHSFail        // the pending dial succeeds but the server closes the connection without sending its HTTP/2 preface
+	c30EvGoAway            // the server of subchannel i sends GOAWAY(NO_ERROR)
+	c30EvSrvClose          // the server of subchannel i closes the connection
+	c30EvAdv               // virtual time advances by c30AdvStep (less than the backoff)
+	c30EvAdvIdle           // virtual time advances by the idle timeout
+	c30EvClose             // cc.Close()
 	c30NumKinds
 )
 
-var c30KindNames = [...]string{"exitidle", "connect", "shutdown", "dialok", "dialfail", "dialhsfail", "goaway", "srvclose", "adv", "advidle", "close"}
+var c30KindNames = [...]string{"exitidle", "connect", "shutdown", "connfail", "connok", "dialok", "dialfail", "dialhsfail", "goaway", "srvclose", "adv", "advidle", "close"}
 
 const (
 	c30Backoff     = time.Second            // constant backoff (base = max = 1s, multiplier 1, jitter 0)
@@ -104,7 +106,7 @@ func c30HistStrings(h []c30Ev) []string {
 func c30Alphabet(n int, withHSFail bool) []c30Ev {
 	var a []c30Ev
 	a = append(a, c30Ev{c30EvExitIdle, -1})
-	for _, k := range []int{c30EvConnect, c30EvDialOK, c30EvDialFail, c30EvDialHSFail, c30EvGoAway, c30EvSrvClose, c30EvShutdown} {
+	for _, k := range []int{c30EvConnect, c30EvConnFail, c30EvConnOK, c30EvDialOK, c30EvDialFail, c30EvDialHSFail, c30EvGoAway, c30EvSrvClose, c30EvShutdown} {
 		if k == c30EvDialHSFail && !withHSFail {
 			continue
 		}
@@ -127,7 +129,7 @@ type c30MSC struct {
 // policy that owns one subchannel per address.
 type c30Model struct {
 	N      int
-	Auto   bool // policy mode: the state listener calls sc.Connect() whenever it is told IDLE
+	Auto   bool // policy mode: ExitIdle connects all IDLE subchannels and the state listener calls sc.Connect() whenever it is told IDLE (manual: the policy only acts on scripted commands)
 	Now    time.Duration
 	Closed bool
 	Idle   bool
@@ -170,6 +172,8 @@ func (m *c30Model) Applicable(e c30Ev) bool {
 	switch e.Kind {
 	case c30EvConnect, c30EvShutdown:
 		return s.St != connectivity.Shutdown
+	case c30EvConnFail, c30EvConnOK:
+		return s.St == connectivity.Idle
 	case c30EvDialOK, c30EvDialFail, c30EvDialHSFail:
 		return s.Pending
 	case c30EvGoAway, c30EvSrvClose:
@@ -223,12 +227,25 @@ func (m *c30Model) Apply(e c30Ev) c30Expect {
 				m.SC[i] = c30MSC{St: connectivity.Idle}
 			}
 		}
-		// the policy's ExitIdle connects every subchannel it knows to be IDLE
-		for i := 0; i < m.N; i++ {
-			m.connect(i, &x)
+		// in auto mode the policy's ExitIdle connects every subchannel it
+		// knows to be IDLE; in manual mode ExitIdle does nothing
+		if m.Auto {
+			for i := 0; i < m.N; i++ {
+				m.connect(i, &x)
+			}
 		}
 	case c30EvConnect:
 		m.connect(e.I, &x)
+	case c30EvConnFail:
+		m.connect(e.I, &x)
+		s := &m.SC[e.I]
+		s.St, s.Pending, s.TfAt = connectivity.TransientFailure, false, m.Now
+		x.Deliv[e.I] = append(x.Deliv[e.I], connectivity.TransientFailure)
+	case c30EvConnOK:
+		m.connect(e.I, &x)
+		s := &m.SC[e.I]
+		s.St, s.Pending, s.Live = connectivity.Ready, false, true
+		x.Deliv[e.I] = append(x.Deliv[e.I], connectivity.Ready)
 	case c30EvShutdown:
 		m.SC[e.I] = c30MSC{St: connectivity.Shutdown}
 		x.Deliv[e.I] = append(x.Deliv[e.I], connectivity.Shutdown)
